@@ -81,6 +81,36 @@ class ExprMixin:
         return tuple(out)
 
     def ev_List(self, e, fr):
+        if any(isinstance(x, ast.Starred) for x in e.elts):
+            # [a, *xs, b] with a symbolic list xs: the concatenation of the pieces (element sort of xs)
+            vals = [(isinstance(x, ast.Starred), self.ev(x.value if isinstance(x, ast.Starred) else x, fr)) for x in e.elts]
+            sym = [v for st, v in vals if st and isinstance(v, VBox) and v.kind == 'list' and v.term is not None]
+            if sym:
+                es = sym[0].esort
+                zs_ = self.zs.zsort(es)
+                parts = []
+                for st, v in vals:
+                    if st:
+                        if isinstance(v, VBox) and v.kind == 'list' and v.term is not None and v.term.sort() == sym[0].term.sort():
+                            parts.append(v.term)
+                        elif isinstance(v, (tuple, list)):
+                            parts.extend(z3.Unit(self.zs.lift(self.unwrap_term(x_), zs_)) for x_ in v)
+                        else:
+                            raise Unsupported('starred value of another kind in a list display')
+                    else:
+                        parts.append(z3.Unit(self.zs.lift(self.unwrap_term(v), zs_)))
+                return VBox('list', parts[0] if len(parts) == 1 else z3.Concat(*parts), es)
+            items = []
+            for st, v in vals:
+                if st:
+                    if isinstance(v, PyList):
+                        v = list(v.items)
+                    if not isinstance(v, (tuple, list)):
+                        raise Unsupported('starred symbolic sequence in tuple')
+                    items.extend(v)
+                else:
+                    items.append(v)
+            return self.new_list(items, fr)
         items = list(self.ev_Tuple(e, fr))
         return self.new_list(items, fr)
 
